@@ -155,6 +155,10 @@ where
         .sum();
     let kmer_mem = input_kmers * mem::size_of::<(K, D1)>();
     let max_mem = memory_size * 10_usize.pow(9);
+    #[cfg(feature = "verif_hooks")]
+    let max_mem = crate::verif_hooks::filter_max_mem(memory_size, max_mem);
+    #[cfg(feature = "verif_hooks")]
+    crate::verif_hooks::filter_trace_clear();
     let slices = kmer_mem / max_mem + 1;
     let sz = 256 / slices + 1;
 
@@ -201,6 +205,14 @@ where
                 }
             }
         }
+
+        #[cfg(feature = "verif_hooks")]
+        crate::verif_hooks::filter_trace_push((
+            i,
+            bucket_range.start,
+            bucket_range.end,
+            kmer_buckets.iter().map(|b| b.len()).sum(),
+        ));
 
         for mut kmer_vec in kmer_buckets {
             kmer_vec.sort_by_key(|elt| elt.0);
